@@ -7,6 +7,14 @@ TECH_A = "bounded symbolic execution of the real Python code (CrossHair 0.0.110 
 TECH_B = "; plus direct z3 obligations generated from the live source/AST (unbounded in the stated dimension)"
 
 CLAIMED = {
+    "C05": dict(
+        text="Bounded symbolic model checking of the validity rules. Typing: compile() on an environment with user-registered functions is compared with the RFC 9535 section 2.4.3 judgement of the reference model for all 39 signatures over {Value,Logical,Nodes}^n -> type (n<=2), 10 syntactic positions, 10 argument-expression kinds per parameter and arity off by one; these finite dimensions are symbolic choice variables the executor forks on (fork-enumerated, exhaustively), while function names in call position are symbolic characters decided by the solver against the registry. Integer range: environment bounds lo<=hi and every index/slice component are unbounded solver variables for the constructors (also proved for all integers by z3 from the source), and index/slice literal spellings around +/-(2^53-1) have symbolic trailing digits end-to-end through compile().",
+        note="Trusted: CrossHair/z3, the reference typing rules in vtools/ref/grammar.py (self-tested against tests/test_ietf_well_typedness.py with its mock signatures), stubs of C04. Outside: functions with more than 2 parameters; for n=2 the quick tier varies one argument at a time (thorough: all pairs).",
+        tech=TECH_A + TECH_B, design="§4 C05"),
+    "C09": dict(
+        text="Bounded symbolic model checking of string-literal decoding plus unbounded z3 kernel obligations. The literal body is up to 2 (3 thorough) symbolic characters over all scalar values inside concrete context - both quote styles, after a backslash, inside \\uXXXX and surrogate-pair escapes with 2 (4 thorough) symbolic hex digits, truncated escapes - in name-selector and comparison position; the real lexer and the real decoding code (including the real bitwise kernels, run through guarded arithmetic rewrites) execute symbolically; a literal is rejected iff the RFC rule does not derive it, otherwise find() on an object with that member (resp. a child string) selects exactly the RFC decoding. z3 proves from the source: _parse_hex_digits for all 4-tuples of code points, the surrogate predicates and _string_from_codepoint for all ints, the surrogate-pair combination for all pairs.",
+        note="Trusted: CrossHair/z3; guarded rewrites of << | & (each guarded by a solver-checked side condition) and the arithmetic UTF-8 model of str.encode (validated against the real encoder for every scalar value each run); the reference decoder (self-tested against json.loads). Outside: more symbolic characters per literal than the bound.",
+        tech=TECH_A + TECH_B, design="§4 C09"),
     "C03": dict(
         text="Bounded differential symbolic model checking of acceptance: on every path where the RFC 9535 reference recogniser derives prefix + k symbolic characters + suffix and finds it valid, the real compile() must return a query whose normal form (segments, selectors, decoded names, integers, literal values, operator grouping) equals the RFC reading. Instances: every position of the seed corpus with any character (k=1; 2 thorough) and with symbolic blank characters (every optional-S position), plus terminal-class instances over whole ABNF classes (shorthand names incl. non-BMP, both quote styles, every escape form incl. \\uXXXX and surrogate pairs with symbolic hex digits, int/frac/exp digits). In addition z3 decides, from the lexer's live compiled patterns, that every string of any length of member-name-shorthand, function-name, blank runs, int and number is matched by the corresponding token pattern.",
         note="Trusted: as C04, plus the regex-to-z3 translator (stdlib sre parse tree -> z3 regex; z3's character sort is folded above U+2FFFF, exactness of the fold is checked on the extracted patterns; a vacuity twin must be refuted each run). The real hex/surrogate kernels run symbolically through guarded arithmetic rewrites of << | & and an arithmetic UTF-8 model of str.encode. Outside: valid queries further than k characters from every seed.",
